@@ -6,6 +6,7 @@ from sa.rules import ranges as RG
 from sa.rules import traversal as T
 from sa.rules import flow_rules as FL
 from sa.rules import validators as V
+from sa.rules import bounds_rules as BRX
 
 
 def main(tier):
@@ -44,6 +45,7 @@ def main(tier):
     chk.run("R-NULLORDER", V.nullorder, cx.repo, floor=8)
     chk.run("R-BITSFIELD", V.bitsfield, cx.repo, floor=2)
     chk.run("R-SUBBYTE", V.subbyte, cx.repo, floor=3)
+    chk.run("R-BOUNDORDER", BRX.boundorder, cx.repo, floor=2)
     chk.run("R-NEGLOC", V.negloc, cx.repo, cx.schema, cx.sites, floor=2)
     chk.run("R-ATTRBACKEND", V.attrbackend, cx.repo, floor=6)
     chk.run("R-BITSFIXED", V.bitsfixed, cx.repo, floor=2)
